@@ -2,7 +2,7 @@
 import re
 from .model import *
 from .facts import Site, op_place, Call, proj_field_name
-from .bits import sym, show, cmp_tests
+from .bits import sym, show, cmp_tests, nonzero_edges
 from . import c13
 from .fields import fields
 
@@ -112,7 +112,7 @@ def r2(run, db):
                 rem_ok = True
         run.check(rem_ok, "custom|mod-pool-size", "the user hash is reduced `% pool_size` (the pool_size parameter)", "the user hash is not reduced modulo the pool_size parameter", h.where())
         zt = [t for t in cmp_tests(f) if t["op"] == "Eq" and t["a"][0] == "arg" and t["b"] == ("c", 0)]
-        run.check(any(t["false_edge"] and f.edge_dominates(t["false_edge"], h.site) for t in zt), "custom|zero-guard", "`pool_size == 0` returns before hashing (no remainder by zero)", "no pool_size == 0 guard before the modulo", f.where())
+        run.check(any(f.edge_dominates(e_, h.site) for e_ in nonzero_edges(f, lambda x: x[0] == "arg")), "custom|zero-guard", "`pool_size == 0` returns before hashing (no remainder by zero)", "no pool_size == 0 guard before the modulo", f.where())
         ck = [c for c in f.calls() if c.matches(r"HashMap::<K, V, S, A>::contains_key$")]
         run.check(len(ck) == 1 and f.reaches_after(h.site, ck[0].site), "custom|membership-filter", "the reduced index is filtered by worker_pool.contains_key", "the chosen index is not checked against the pool", f.where())
         # result derives from the reduced value only
@@ -135,7 +135,7 @@ def r2(run, db):
         run.check(len(hc) == 1 and sym(f, hc[0].args[1])[0] == "arg", "kp|hash-bound=pool_size", "key-persistent hashes with the pool_size parameter as bound", "key-persistent hash bound is not pool_size", f.where())
         if hc:
             zt = [t for t in cmp_tests(f) if t["op"] == "Eq" and t["a"][0] == "arg" and t["b"] == ("c", 0)]
-            run.check(any(t["false_edge"] and f.edge_dominates(t["false_edge"], hc[0].site) for t in zt), "kp|zero-guard", "`pool_size == 0` returns before hashing", "no zero guard before hash_with_max", f.where())
+            run.check(any(f.edge_dominates(e_, hc[0].site) for e_ in nonzero_edges(f, lambda x: x[0] == "arg")), "kp|zero-guard", "`pool_size == 0` returns before hashing", "no zero guard before hash_with_max", f.where())
             ck = [c for c in f.calls() if c.matches(r"HashMap::<K, V, S, A>::contains_key$")]
             run.check(any(f.reaches_after(hc[0].site, c.site) for c in ck), "kp|membership-filter", "hashed index filtered by contains_key", None, f.where())
 
@@ -156,6 +156,18 @@ def r3(run, db):
         if scan and hc:
             ne = nested_variant_edge(f, scan[0], ["None"]) or None
             se = nested_variant_edge(f, scan[0], ["Some"])
+            if se is None:
+                # `let owner = scan.map(..); if owner.is_some() { return owner }`
+                thr_ = lambda cc: 0 if cc.matches(r"Option::<T>::(map|as_ref|copied|cloned)$") else None
+                for y in f.calls():
+                    if y.matches(r"Option::<T>::is_some$") and any(r["k"] == "call" and r["call"].bb == scan[0].bb for r in f.origins(y.args[0], through=thr_)):
+                        se = true_edge(f, y)
+                    if y.matches(r"Option::<T>::is_none$") and any(r["k"] == "call" and r["call"].bb == scan[0].bb for r in f.origins(y.args[0], through=thr_)):
+                        se = false_edge(f, y)
+                if se is None:
+                    for sw in switches_on_value_of(f, scan[0], through=thr_):
+                        if "Some" in sw["info"]["edges"] and not sw["path"]:
+                            se = (sw["site"].bb, sw["info"]["edges"]["Some"])
             run.check(f.dominates(scan[0].site, hc[0].site) and se is not None and hc[0].site not in edge_path_sites(f, [se]), "kp|scan-before-hash", "the scan precedes hashing and a hit returns without hashing (key stays with its worker across resizes)",
                       "hashing can override a worker that still holds pending jobs of the key", hc[0].where())
     st = [f for f in db.crate_fns("ractor") if f.raw.get("trait_item", "").endswith("Router::choose_target_worker") and "StickyQueuerRouting" in (f.raw.get("impl_self") or "")]
@@ -245,7 +257,11 @@ def r4(run, db):
 
 def r5(run, db):
     c13.r7(run, db)
-    sh = run.need(db.one(r"FactoryState::<.*>::shrink_pool$"), "shrink_pool")
+    # the body that shrinks the pool: the one body of FactoryState that marks workers as draining (today `shrink_pool`;
+    # located by what it does, so merging it into its only caller or renaming it changes nothing)
+    shs = [f for f in db.crate_fns("ractor") if "FactoryState" in f.id and any(c.callee and c.callee.endswith("::set_draining") and f.value_consts(c.args[1]) == ["true"] for c in f.calls())]
+    run.anchor("pool-shrinking body", len(shs), 1)
+    sh = run.need(shs[0] if len(shs) == 1 else None, "shrink_pool")
     run.saw(len(sh.blocks), sh)
     iw = [c for c in sh.calls() if c.callee and c.callee.endswith("::is_working")]
     sd = [c for c in sh.calls() if c.callee and c.callee.endswith("::set_draining")]
@@ -293,10 +309,12 @@ def r7(run, db):
             forms = [show(sym(f, d[2]["rv"]["op"])) if d[2]["rv"]["k"] == "use" else show(sym(f, {"k": "copy", "p": [d[2]["lhs"][0], []]})) for d in defs if d[1] == "assign"]
             adds = [d for d in defs if d[1] == "assign" and d[2]["rv"]["k"] in ("use", "bin")]
             run.check(ok and len(defs) == 2, "rr|cursor=next-or-0", "cursor := last+1, reset to 0 when it reaches pool_size (%s)" % forms, "cursor update shape changed", f.where(s.get("l")))
-            wrap = [t for t in cmp_tests(f) if t["op"] == "Ge" and t["b"][0] == "arg"]
+            # `next >= pool_size` (reset) in any of its spellings: `next < pool_size` (keep), `pool_size <= next`, `pool_size > next`
+            wrap = [t for t in cmp_tests(f) if (t["op"] in ("Ge", "Lt") and t["b"][0] == "arg" and t["a"][0] != "arg") or (t["op"] in ("Le", "Gt") and t["a"][0] == "arg" and t["b"][0] != "arg" and t["b"][0] != "c")]
             run.check(len(wrap) == 1, "rr|wraps-at-pool-size", "wrap test `key >= pool_size`", "no wrap test against pool_size", f.where())
         zt = [t for t in cmp_tests(f) if t["op"] == "Eq" and t["a"][0] == "arg" and t["b"] == ("c", 0)]
-        run.check(len(zt) == 1 and zt[0]["false_edge"] and (not stores or f.edge_dominates(zt[0]["false_edge"], stores[0][0])), "rr|zero-guard", "pool_size == 0 returns None first", None, f.where())
+        nz = nonzero_edges(f, lambda x: x[0] == "arg")
+        run.check(bool(nz) and (not stores or any(f.edge_dominates(e_, stores[0][0]) for e_ in nz)), "rr|zero-guard", "pool_size == 0 returns None first", None, f.where())
 
 
 def r8(run, db):
